@@ -157,10 +157,15 @@ def bl_pipeline(case, ctx):
         nnz = len(case["px"])
         edges = np.arange(0, nnz + case["chunk"], case["chunk"])
         dp = split(clr, map=rm, spans=list(zip(edges[:-1], edges[1:])))
-    total = dp.prepare(_init).pipe(_filters(case["o"])).pipe(_marginalize).reduce(add, np.zeros(n))
+    pl = dp.prepare(_init).pipe(_filters(case["o"])).pipe(_marginalize)
+    total = pl.reduce(add, np.zeros(n))
+    first = list(rm.results)
+    # repeated runs: the SAME pipeline once more, and a second branch off the same split (pixel records per span)
+    total2 = pl.reduce(add, np.zeros(n))
+    seen = dp.pipe(lambda chunk, data=None: int(len(chunk["pixels"]["bin1_id"]))).gather()
     return {"keys": [list(k) for k in rm.calls[0]] if rm.calls else [],
-            "results": [{"key": list(k), "partial": project.ints(r)} for k, r in rm.results],
-            "total": project.ints(total)}
+            "results": [{"key": list(k), "partial": project.ints(r)} for k, r in first],
+            "total": project.ints(total), "total2": project.ints(total2), "branch_seen": int(sum(seen))}
 
 
 @driver("bl.schedules")
